@@ -402,7 +402,11 @@ func genRandom3(r *gen.Rng, kind int) *concCase {
 			}
 		}
 		if r.Intn(3) == 0 { // an overlapping fragment: the first two pieces in one
-			pool = append(pool, mkOp(d, piece{0, 15}))
+			last := 15
+			if last > n-1 {
+				last = n - 1
+			}
+			pool = append(pool, mkOp(d, piece{0, last}))
 		}
 	}
 	for i := len(pool) - 1; i > 0; i-- {
